@@ -209,6 +209,35 @@ def axiom_audit(theorems):
     return res, txt
 
 
+def modules_of(theorems):
+    """Lean modules (under FfuzzyProofs) that declare the given theorems"""
+    mods = set()
+    root = os.path.join(LEAN, "FfuzzyProofs")
+    files = []
+    for d, _, fs in os.walk(root):
+        for f in fs:
+            if f.endswith(".lean"):
+                files.append(os.path.join(d, f))
+    texts = {f: open(f).read() for f in files}
+    for t in theorems:
+        last = t.split(".")[-1]
+        for f, txt in texts.items():
+            if re.search(r"^theorem\s+%s\b" % re.escape(last), txt, flags=re.M):
+                rel = os.path.relpath(f, LEAN)[:-5].replace(os.sep, ".")
+                mods.add(rel)
+    return sorted(mods)
+
+
+def leanchecker(mods):
+    """independent re-check of the compiled modules; returns (ok, text)"""
+    bad = []
+    for m in mods:
+        r = subprocess.run(["lake", "env", "leanchecker", m], cwd=LEAN, env=ENV, capture_output=True, text=True)
+        if r.returncode != 0:
+            bad.append("%s: %s" % (m, (r.stdout + r.stderr)[-500:]))
+    return (not bad), "\n".join(bad)
+
+
 # --------------------------------------------------------------------------------------------
 # correspondence
 # --------------------------------------------------------------------------------------------
